@@ -421,6 +421,12 @@ func applyContextRef(lines []string, left []string) ([]string, string) {
 			i++
 		}
 		nl, nr := le-ls+1, re-rs+1
+		// marker consistency: '!' marks lines that differ between the two parts and
+		// must therefore occur in both; '-' only on the left, '+' only on the right
+		lbang, rbang := bytes.IndexByte(lkinds, '!') >= 0, bytes.IndexByte(rkinds, '!') >= 0
+		if lbang != rbang {
+			return nil, fmt.Sprintf("hunk %d: changed-line marker '!' appears in only one of the two parts", hunk)
+		}
 		// an omitted body consists of the other side's context lines
 		if len(lbody) == 0 && nl > 0 {
 			for k, t := range rbody {
